@@ -19,7 +19,9 @@ RULE = ('one case = one Configurator (2-10 add_view calls: context in class tree
         'predicate values differ in one NEAR value (containment classes / interfaces of another module with the same short name, '
         'k vs k=, X-Foo vs X-Foo:, GET vs HEAD ...), 30 % of the cases on container-style resources (an empty one is falsy), a '
         'ContextFound subscriber that marks the context with an interface views are registered for, add_view given for_= or positional '
-        'arguments, 40 % of the cases with a second '
+        'arguments, custom predicates that raise when evaluated although the request_method predicate before them failed (any exception '
+        'leaving the router is an observation that fits no specification), header regexes containing colons with matching header values, '
+        '40 % of the cases with a second '
         'application alive in the process that is asked first in the last phase), each sent at a chosen moment of the commit history (warm lookup cache) and compared with the model on the registrations committed so far; non-trivial = the case has >= 3 registrations, at least one request on which '
         'a view body ran after the lookup had at least two name-matching registrations in range, and at least one request '
         'that ended in Not Found or ran a different body; distinct by full case')
@@ -91,7 +93,7 @@ METHOD_VALS = ['GET', 'POST', 'HEAD', 'PUT', ['GET', 'POST'], ['POST', 'HEAD'], 
 PARAM_VALS = ['k', 'k=v', '=k', '=k=v', ' k = v ', 'j=w', ['k', 'j=w'], ['j', 'k=v'], 'k=', '=', 'k=v=w', 'k = v',
               'aheader b', ['a'], 'j', '\xa0k\xa0=\xa0v\xa0', '=k=']
 HEADER_VALS = ['X-Foo', 'X-Foo:ba.', 'X-Foo:', ['X-Foo', 'X-Bar:\\d+'], 'X-Bar:^1', 'x-foo', 'X-Foo:bar$', 'b', 'X-Bar', 'X-Foo:a:b',
-               ['X-Foo:', 'X-Foo']]
+               ['X-Foo:', 'X-Foo'], 'X-Bar:h:\\d+$', 'X-Foo:https?://', ['X-Bar:h:80', 'X-Foo']]
 PATHINFO_VALS = ['/a', '.*b', '/u/', '/r1', '.*v$', '/$', '/a/b/c', '(?i)/A', '/x|/u', '.*/w']
 MATCH_VALS = ['mp=1', ' mp = 1 ', ['mp=1', 'mp=2'], 'mp=2', 'mp=', 'zz=1', 'mp=1=1']
 PHYS_VALS = ['/a/b', ['', 'a'], '/', 'a/b/', '/u/c', ['', 'u', 'i'], '//a//', [''], [], ['a'], '/a/b/c', '/x', '']
@@ -181,7 +183,8 @@ def gen_view(rng, tag, routes, third, focus):
     return {'ctx': ctx, 'name': name, 'route': route, 'preds': preds, 'nots': sorted(nots),
             'accept': rng.choice(OFFERS) if rng.random() < 0.12 else None,
             'perm': rng.random() < 0.12, 'tag': tag, 'raises404': rng.random() < 0.08,
-            'style': rng.choice(['kw'] * 7 + ['for_', 'for_', 'pos'])}
+            'style': rng.choice(['kw'] * 7 + ['for_', 'for_', 'pos']),
+            'fragile': 'custom' in preds and 'request_method' in preds and 'request_method' not in nots and rng.random() < 0.6}
 
 
 CTX_PATHS = {'A': [['a'], ['a', 'b'], ['a', 'b', 'c'], ['u', 'i'], ['u', 'c']], 'B': [['a', 'b'], ['a', 'b', 'c'], ['u', 'c']],
@@ -211,7 +214,8 @@ def gen_request(rng, case):
         (qs if rng.random() < 0.6 else post).append(kv)
     headers = []
     for _ in range(rng.choice([0, 0, 1, 1, 2])):
-        headers.append([rng.choice(['X-Foo', 'X-Bar', 'x-foo', 'B']), rng.choice(['bar', 'baz', '12', '', 'xbar', 'ba'])])
+        headers.append([rng.choice(['X-Foo', 'X-Bar', 'x-foo', 'B']),
+                        rng.choice(['bar', 'baz', '12', '', 'xbar', 'ba', 'a:b', 'a:b', 'h:80', 'https://x'])])
     method = rng.choice(METHODS + ['GET', 'GET', 'POST'])
     if post and method in ('GET', 'HEAD', 'DELETE'):
         method = 'POST'
@@ -373,6 +377,8 @@ def valid(case):
                 return False
             if v.get('style', 'kw') not in ('kw', 'for_', 'pos'):
                 return False
+            if not isinstance(v.get('fragile', False), bool):
+                return False
             for n, val in v['preds'].items():
                 if n in ('zthird', 'ythird'):
                     if not case['third'] or not (isinstance(val, list) and len(val) == 2 and isinstance(val[1], str)):
@@ -458,7 +464,7 @@ def shrinks(case):
             del p[n]
             yield dict(case, views=case['views'][:i] + [dict(v, preds=p, nots=[x for x in v['nots'] if x != n])]
                        + case['views'][i + 1:])
-        for k, simple in (('accept', None), ('perm', False), ('route', None), ('nots', []), ('raises404', False), ('style', 'kw')):
+        for k, simple in (('accept', None), ('perm', False), ('route', None), ('nots', []), ('raises404', False), ('style', 'kw'), ('fragile', False)):
             if v.get(k, simple) != simple:
                 yield dict(case, views=case['views'][:i] + [dict(v, **{k: simple})] + case['views'][i + 1:])
     for i, r in enumerate(case['requests']):
@@ -561,8 +567,9 @@ def setup(tier):
     from pyramid.events import ContextFound
 
     class Custom:
-        def __init__(self, i):
+        def __init__(self, i, guard=None):
             self.i = i
+            self.guard = guard          # request methods under which the predicate may be evaluated (None: always)
 
         def __hash__(self):
             return self.i
@@ -571,6 +578,9 @@ def setup(tier):
             return isinstance(o, Custom) and o.i == self.i
 
         def __call__(self, context, request):
+            if self.guard is not None and request.method not in self.guard:
+                # a predicate that is only safe behind the view's request_method predicate (reads a body only POST has ...)
+                raise KeyError('custom predicate %d evaluated although the guarding predicate before it failed' % self.i)
             return self.i in request.environ['c03.truth']
 
     class Third:
@@ -758,8 +768,14 @@ class World:
             notted = n in v['nots']
             if n == 'custom':
                 vals, wv = [], []
+                guard = None
+                if v.get('fragile') and 'request_method' in v['preds'] and 'request_method' not in v['nots']:
+                    ms = v['preds']['request_method']
+                    guard = set([ms] if isinstance(ms, str) else ms)
+                    if 'GET' in guard:
+                        guard.add('HEAD')           # the documented condition of request_method: GET implies HEAD
                 for i, nt in val:
-                    c = P['Custom'](i)
+                    c = P['Custom'](i, guard)
                     vals.append(P['not_'](c) if nt else c)
                     wv.append([nt, [3, i, '']])
                 kw['custom_predicates'] = tuple(vals)
@@ -897,6 +913,8 @@ class World:
         _P['flags']['falsy'] = bool(self.case.get('falsy'))
         try:
             resp = req.get_response(self.app)
+        except Exception as e:                  # nothing the lookup does may escape from the router
+            return ['EXCEPTION-ESCAPED-FROM-ROUTER', type(e).__name__]
         finally:
             marked = req.environ.get('c03.marked')
             if marked is not None:
@@ -1118,6 +1136,9 @@ def kinds(case, obs):
         k.append('cfg:context-marked-by-subscriber')
     if any(v['ctx'] == 'M' for v in case['views']):
         k.append('cfg:view-on-marker-interface')
+    if any(v.get('fragile') and 'custom' in v['preds'] and 'request_method' in v['preds'] and 'request_method' not in v['nots']
+           for v in case['views']):
+        k.append('cfg:custom-predicate-safe-only-behind-request_method')
     for st in sorted({v.get('style', 'kw') for v in case['views']} - {'kw'}):
         k.append('cfg:add_view-' + ('for_-alias' if st == 'for_' else 'positional-arguments'))
     if any(r.get('ident', r['user']) != r['user'] for r in case['requests']):
